@@ -176,25 +176,37 @@ static void runCase(const Graph& g) {
     // (6) bodies marked must-be-base are base bodies: their mobilizer's inboard body is Ground.
     //     Input classes (stable keys): gj = the body also has an input joint to Ground (discouraged by the documentation);
     //     viaMassless = mobilized outboard of a massless body; plain = everything else
+    //     Input classes (stable keys):
+    //       gj          = the body also has an input joint to Ground: documented misuse ("you should not set this
+    //                     flag" then, MultibodyGraphMaker.h) -> outside the property's domain, tagged only (D line);
+    //       viaMassless = exactly the known situation: the body was attached by growTree's "extend past a mobile
+    //                     massless body" loop, i.e. its inboard body is a massless input body whose own mobilizer
+    //                     has mobilities and immediately precedes this body's mobilizer;
+    //       plain       = everything else.
+    auto jointTypeOfMob = [&](const MV& m) { return m.joint >= 0 && m.joint < nj ? g.joints[m.joint].type : 1; /* added base joint: free */ };
     std::map<std::string, int> v_base;
+    int gjNotBase = 0;
     for (int b = 1; b <= nb; ++b) if (g.bodies[b - 1].mustBase) {
         bool hasGJ = false;
         for (auto& j : g.joints) if ((j.parent == b && j.child == 0) || (j.child == b && j.parent == 0)) hasGJ = true;
-        for (auto& m : mv) if (!m.slave && m.outbMaster == b) {
-            std::string cls = hasGJ ? "gj" : (m.inb > 0 && m.inb <= nb && g.bodies[m.inb - 1].mass == 0) ? "viaMassless" : "plain";
-            v_base[cls] += (m.inb != 0);
+        for (int k = 0; k < NM; ++k) if (!mv[k].slave && mv[k].outbMaster == b) {
+            const MV& m = mv[k];
+            if (hasGJ) { gjNotBase += (m.inb != 0); continue; }
+            bool via = m.inb > 0 && m.inb <= nb && g.bodies[m.inb - 1].mass == 0 && k > 0 && !mv[k - 1].slave &&
+                       mv[k - 1].outbMaster == m.inb && nmobOfType(g, jointTypeOfMob(mv[k - 1])) > 0;
+            v_base[via ? "viaMassless" : "plain"] += (m.inb != 0);
         }
     }
-    for (const char* cls : {"plain", "viaMassless", "gj"})
+    for (const char* cls : {"plain", "viaMassless"})
         if (v_base.count(cls)) vh::P("base_flag", std::string("graph.") + cls + ".base_flag", v_base[cls], 0);
+    if (gjNotBase) vh::D("obs.mustBeBase_with_ground_joint_not_base");
     // (7) no massless body with mobilities ends a branch: a mobilized body (or body fragment) of zero mass whose
     //     mobilizer has mobilities must be the inboard body of some mobilizer
     int v_mt_master = 0, v_mt_slave = 0;
     for (int k = 0; k < NM; ++k) {
         long ob = mv[k].outbMaster;
         if (ob < 1 || ob > nb || g.bodies[ob - 1].mass != 0) continue;
-        int t = mv[k].joint >= 0 && mv[k].joint < nj ? g.joints[mv[k].joint].type : 1 /* added base joint: free */;
-        if (nmobOfType(g, t) == 0) continue;
+        if (nmobOfType(g, jointTypeOfMob(mv[k])) == 0) continue;
         if (mv[k].slave) { ++v_mt_slave; continue; }         // a slave fragment is never an inboard body
         bool hasOutboard = false;
         for (auto& m : mv) if (m.inb == ob) hasOutboard = true;
